@@ -3,6 +3,7 @@
    slice; this file collects the pass-level obligations: every pass that builds a clause node EQUALS a
    clean left-to-right specification, unboundedly; the written-list corollaries; and the closed
    pipeline families.) *)
+From SqlModel.Inst Require PassTabRun.   (* the grouping tables of Group/Passes.v equal the ones regenerated from the source *)
 From SqlModel Require Import Base PyStr Node Inv Passes TotalDefs TotalBase TotalFacts ClauseSpec ClauseFacts.
 From SqlModel.Inst Require Import Cur C13Fin.
 
